@@ -558,7 +558,7 @@ def _slice_len(dim, sl):
             return default
         if b.sym is None:
             return None
-        if b.sym.is_const() and b.sym.c < 0:
+        if (b.sym.is_const() and b.sym.c < 0) or (not b.sym.is_const() and b.sign in (S_NEG,)):
             return (dim + b.sym) if dim is not None else None
         return b.sym
     lo_p = pos(lo, LinExpr(0))
@@ -1388,7 +1388,8 @@ def _zeros(C):
         sign = S_ZERO
     return AV(kind=K_ARRAY, dtype=dt, shape=shape, alg=alg, sign=sign, origin=C.fresh(),
               tags=tags_of(*[a for a in C.args]), f0=(short == "zeros"),
-              mono=axes_all(shape) if short in ("zeros", "ones") else frozenset())
+              mono=axes_all(shape) if short in ("zeros", "ones") else frozenset(),
+              note=("init", None, frozenset()) if short in ("ones", "empty", "full") else None)
 
 
 @lib("numpy.zeros_like", "numpy.ones_like", "numpy.empty_like", "numpy.full_like",
@@ -1402,7 +1403,8 @@ def _zeros_like(C):
     alg = {at: alg_weaken(CONST, c) for at, c in alg.items() if c[0] not in ("const", "zero")}
     return AV(kind=K_ARRAY, dtype=dt, shape=v.shape, alg=alg, sign=sign, origin=C.fresh(), tags=v.tags,
               indef=v.indef, f0=(short == "zeros_like"),
-              mono=axes_all(v.shape) if short in ("zeros_like", "ones_like") else frozenset())
+              mono=axes_all(v.shape) if short in ("zeros_like", "ones_like") else frozenset(),
+              note=("init", None, frozenset()) if short in ("ones_like", "empty_like", "full_like") else None)
 
 
 @lib("numpy.array", "numpy.asarray", "numpy.asanyarray", "numpy.ascontiguousarray", "numpy.copy",
